@@ -78,7 +78,7 @@ class Track:
         sw = self.sw
         p: Dict[str, Any] = {
             "a": sw.health_state_actual.name if sw is not None else "GOOD",
-            "v": sw.health_state_visible.name if sw is not None else "UNUSED",
+            "v": sw.health_state_visible.name if sw is not None else "GOOD",
             "fh": [], "fv": [], "lv": [],
             "on": self.node.operating_state.name == "ON",
         }
@@ -106,18 +106,18 @@ class Track:
         self.log.append({"tag": tag, "p": p, "wr": [s for s in SLOTS if old[s] != new[s]], **(extra or {})})
         self.shadow = p
 
-    def emit(self, ev: str, p: Dict[str, Any], i: int = 0, ok: bool = True, wr: Optional[List[str]] = None):
+    def emit(self, ev: str, p: Dict[str, Any], i: int = 0, ok: bool = True, wr: Optional[List[str]] = None, ctx: str = ""):
         if p["on"] != self.on and ev not in ("PowerOn", "PowerOff"):
             # the node's power state moved: that is an event of its own, before this one
             q = dict(self.ev[-1]) if self.ev else None
             base = {"a": self.cfg["a"], "v": self.cfg["v"], "fh": self.cfg["fh"], "fv": self.cfg["fv"], "fov": self.cfg["fov"]} \
                 if q is None else {k: q[k] for k in ("a", "v", "fh", "fv", "fov")}
             self.ev.append({"ev": "PowerOn" if p["on"] else "PowerOff", "i": 0, "ok": True, **base, "lv": list(self.lv),
-                            "on": p["on"], "wr": [], "stray": 0})
+                            "on": p["on"], "wr": [], "stray": 0, "ctx": ctx})
             self.on = p["on"]
         self.ev.append({"ev": ev, "i": int(i), "ok": bool(ok), "a": p["a"], "v": p["v"], "fh": list(p["fh"]),
                         "fv": list(p["fv"]), "fov": p["fov"], "lv": list(self.lv), "on": p["on"],
-                        "wr": sorted(set(wr or [])), "stray": self.stray})
+                        "wr": sorted(set(wr or [])), "stray": self.stray, "ctx": ctx})
         self.stray = 0
         self.on = p["on"]
         self.lv = list(p["lv"])
@@ -268,13 +268,14 @@ class Recorder:
                 self._flush_tick(tr, log, exc)
             elif frame[0] == "PreTick":
                 if any(e["wr"] for e in log):
-                    tr.emit("Other", tr.project(), wr=[s for e in log for s in e["wr"]])
+                    tr.emit("Other", tr.project(), wr=[s for e in log for s in e["wr"]], ctx="PreTick")
             else:
                 self._flush_request(tr, frame, log, ok, exc)
 
     def _flush_request(self, tr: Track, frame: Tuple, log, ok, exc):
         wr = [s for e in log for s in e["wr"]]
         p = tr.project()
+        ctx = "/".join(str(x) for x in (frame[1] if frame[0] == "Req" else frame[:2]))[:160]
         if frame[0] == "Stim":
             name, i = frame[1], frame[2]
         else:
@@ -297,16 +298,16 @@ class Recorder:
                 else:
                     name, i = "Other", 0
         if exc is not None:
-            tr.emit("Raised", p, i, False, wr)
+            tr.emit("Raised", p, i, False, wr, ctx)
             tr.meta["exception"] = repr(exc)
             return
-        tr.emit(name, p, i, bool(ok), wr)
+        tr.emit(name, p, i, bool(ok), wr, ctx)
 
     def _flush_tick(self, tr: Track, log, exc):
         begin = dict(tr.ev[-1]) if tr.ev else None
         p0 = {k: (begin[k] if begin else tr.cfg[k]) for k in ("a", "v", "fh", "fv", "fov")}
         p0.update({"lv": list(tr.lv), "on": tr.on})
-        tr.emit("TickBegin", p0)
+        tr.emit("TickBegin", p0, ctx="Tick")
         # group consecutive writes of the same phase
         groups: List[Dict[str, Any]] = []
         for e in log:
@@ -318,13 +319,13 @@ class Recorder:
         for g in groups:
             if g["tag"] == "stray" and not g["wr"]:
                 continue                   # a write that changed nothing, outside every known phase
-            tr.emit(PHASE_EVENT.get(g["tag"], "Other"), g["p"], 0, True, g["wr"])
+            tr.emit(PHASE_EVENT.get(g["tag"], "Other"), g["p"], 0, True, g["wr"], "Tick:" + g["tag"])
         p = tr.project()
         if exc is not None:
-            tr.emit("Raised", p, 0, False, [])
+            tr.emit("Raised", p, 0, False, [], "Tick")
             tr.meta["exception"] = repr(exc)
             return
-        tr.emit("TickEnd", p)
+        tr.emit("TickEnd", p, ctx="Tick")
 
     # -- installation ------------------------------------------------------------------------------
     def install(self):
@@ -359,7 +360,20 @@ class Recorder:
         framed(Simulation, "pre_timestep", "PreTick")
         framed(Software, "apply_timestep", "SwTick")
         framed(Software, "scan", "SwScan")
-        framed(FileSystem, "scan", "FsScan")
+
+        # whole-node scan: on a folder without files it writes nothing: mark the phase from the code's own call
+        def fs_before(fs, *a, **k):
+            rec.push("FsScan", fs)
+            return bool(k.get("instant_scan", a[0] if a else False))
+
+        def fs_after(fs, tok, ret, exc, *a, **k):
+            if tok and exc is None and rec.frames and rec.frames[0][0] == "Tick" and len(rec.frames) == 2:
+                for tr in rec.tracks:
+                    if tr.folder_name is not None and tr.node.file_system is fs:
+                        tr.note("os")
+            rec.pop(None, exc)
+
+        tracer.wrap(FileSystem, "scan", before=fs_before, after=fs_after)
         framed(Folder, "_scan_timestep", "FoScanTick")
         framed(Node, "_start_up_actions", "StartUp")
         framed(Application, "apply_timestep", "AppTick")
